@@ -7,6 +7,7 @@
 import DecModel.Judge
 import DecModel.HkGen
 import DecGen.Api
+import DecGen.Api2
 import DecModel.RoundHelpers
 import DecModel.PackHelpers
 import DecModel.ArithHelpers
@@ -84,6 +85,24 @@ def judgeApi (modeTok : String) (o : Obs) : String :=
   let args := o.args.foldr (fun a acc => match toAVal a, acc with
     | some v, some l => some (v :: l)
     | _, _ => none) (some [])
+  -- methods taking a binary float: the translated `binary32/64_to_bid128` (DecGen/Code2.lean) through DecGen/Api2.lean
+  let float? : Option (Except String (Dec.Rs.U128 × UInt32)) := match o.args with
+    | [.f b] => Dec.Gen.Api2.run2 o.op mode (UInt32.ofNat o.flagsIn) b
+    | [.g b] => Dec.Gen.Api2.run2 o.op mode (UInt32.ofNat o.flagsIn) b
+    | _ => none
+  match float? with
+  | some (.error why) =>
+    (match o.out with
+     | none => "ok api-panic-agrees"
+     | some _ => "corr translated-code predicts a panic (" ++ why ++ "), the compiled routine returned")
+  | some (.ok (r, fl)) =>
+    (match o.out with
+     | none => "corr translated-code returns, the compiled routine panicked"
+     | some (rv, rf) =>
+       let bits := r.w1.toNat * 2 ^ 64 + r.w0.toNat
+       if rv == [.d bits] && rf == fl.toNat then "ok api-translated"
+       else "corr translated-code predicts " ++ showVal (.d bits) ++ " " ++ String.ofList (Nat.toDigits 16 fl.toNat))
+  | none =>
   match args with
   | none => "skip"
   | some as =>
